@@ -122,9 +122,34 @@ impl ValidationContext {
                     self.validate_expr_function_calls(arg)?;
                 }
             }
+            Node::Divert(divert) | Node::ThreadDivert(divert) => {
+                for arg in &divert.arguments {
+                    self.validate_expr_function_calls(arg)?;
+                }
+            }
+            Node::TunnelDivert { args, .. } => {
+                for arg in args {
+                    self.validate_expr_function_calls(arg)?;
+                }
+            }
             _ => {}
         }
         Ok(())
+    }
+
+    /// `-> name` written as a value (an argument, an initial value, an operand).
+    fn check_divert_target_value(&self, target: &str) -> Result<(), CompilerError> {
+        let suffix = format!(".{target}");
+        if self.valid_targets.contains(target)
+            || self.flow_names.contains(target)
+            || self.valid_targets.iter().any(|t| t.ends_with(&suffix))
+        {
+            return Ok(());
+        }
+
+        Err(CompilerError::invalid_source(format!(
+            "Divert target not found: '-> {target}'"
+        )))
     }
 
     fn validate_condition_function_calls(
@@ -146,6 +171,7 @@ impl ValidationContext {
                     self.validate_expr_function_calls(arg)?;
                 }
             }
+            Expression::DivertTarget(target) => self.check_divert_target_value(target)?,
             Expression::Negate(expr) | Expression::Not(expr) => {
                 self.validate_expr_function_calls(expr)?;
             }
